@@ -140,6 +140,12 @@ func probe(args []string) {
 	if len(args) > 2 {
 		mode = args[2]
 	}
+	keep := 2
+	if mode == "full" {
+		keep = 99
+	}
+	Desc := func(v ssa.Value) string { return abbr(Desc(v), keep) }
+	Facts := func(b *ssa.BasicBlock) []string { return abbrAll(Facts(b), keep) }
 	for _, f := range WithClosures(fn) {
 		fmt.Printf("=== %s\n", FnName(f))
 		if mode == "summary" {
